@@ -19,6 +19,7 @@ import MosnVerif.Lemmas.CheckedH2Parse
 import MosnVerif.Model.CheckedWire
 import MosnVerif.Lemmas.H2Alloc
 import MosnVerif.Lemmas.HpackNoPanic
+import MosnVerif.Lemmas.StreamAlloc
 /-!
 # C08 — malformed input is contained (property theorems only)
 
@@ -983,6 +984,41 @@ open MosnVerif.Model.H2Alloc in
 -- the class the theorem excludes: appending before the test overshoots the budget
 example : (emitAll ["size", "append", "test", "take"] 50 [(20, 20)]).kept = [72] := by decide
 end h2path
+
+section streamalloc
+open MosnVerif.Model.StreamAlloc MosnVerif.Lemmas.StreamAlloc MosnVerif.Gen.C08StreamAlloc
+
+/-- **stream_alloc_bounded** (allocation, STREAM layer): (1) every sized buffer allocation on the stream-layer receive
+paths (pkg/stream/http2/stream.go both `handleFrame`s; pkg/stream/http/stream.go and pkg/stream/xprotocol/{conn,stream}.go
+have none) — `buffer.GetIoBuffer(n)` / `NewIoBuffer` / `NewPipeBuffer` / `GetBytes` / `make([]byte, n)` / `Grow(n)`, regenerated
+with the provenance of `n` — is sized by a constant or by the length of RECEIVED bytes, never by an announced value;
+(2) for EVERY announced content-length (any integer: huge, negative, what a non-numeric header parses to) and EVERY
+sequence of DATA payload lengths, the buffer that collects the request (server side) resp. response (client side) body —
+first allocation of the regenerated size, then `Write` per payload — holds exactly what arrived, in a capacity of at most
+`8 · received + 4096` bytes: a function of the bytes that ARRIVED only;
+(3) the pipe of streaming mode is sized by the received payload as well, the buffer of an empty body is a constant. -/
+theorem stream_alloc_bounded :
+    (sa_sites.all (fun s => s.2.2.2 == "received-length" || s.2.2.2 == "constant") = true) ∧
+    (∀ (ann : Int) (chunks : List Nat) (b : Buf), collect sa_srv_collect ann chunks = some b →
+      b.len = total chunks ∧ b.cap ≤ capBound (total chunks)) ∧
+    (∀ (ann : Int) (chunks : List Nat) (b : Buf), collect sa_cli_collect ann chunks = some b →
+      b.len = total chunks ∧ b.cap ≤ capBound (total chunks)) ∧
+    (∀ recv ann : Int, sa_srv_pipe recv ann = recv ∧ sa_cli_pipe recv ann = recv ∧ sa_srv_empty recv ann = 0 ∧
+      sa_cli_empty recv ann = 0) :=
+  ⟨by decide,
+   fun ann chunks b h => collect_bounded sa_srv_collect (fun _ _ => rfl) ann chunks b h,
+   fun ann chunks b h => collect_bounded sa_cli_collect (fun _ _ => rfl) ann chunks b h,
+   fun _ _ => ⟨rfl, rfl, rfl, rfl⟩⟩
+
+-- non-vacuity: content-length 268435456 announced, one byte arrives: a 64-byte slot; 65 + 1000 bytes: 128, then 2048
+example : collect sa_srv_collect 268435456 [1] = some ⟨64, 1⟩ := by decide
+example : collect sa_cli_collect (-5) [65, 1000] = some ⟨2048, 1065⟩ := by decide +kernel
+example : sa_sites.length = 6 := by decide
+-- the class the theorem excludes: a collecting buffer sized by the announcement holds 1 byte in 256 MiB
+example : (collect (fun recv ann => if ann > recv then ann else recv) 268435456 [1]).map (·.cap) = some 268435456 := by
+  decide +kernel
+example : parseInt64 "99999999999999999999" = 9223372036854775807 ∧ parseInt64 "abc" = 0 ∧ parseInt64 "-5" = -5 := by decide
+end streamalloc
 end c08p10
 
 end MosnVerif.Props.C08
